@@ -1,7 +1,7 @@
 From Coq Require Extraction ExtrOcamlBasic.
-From V Require Import Gen.Tokens Gen.ScanTok Model.Scan Model.ScanTokens.
+From V Require Import Gen.Tokens Gen.ScanTok Model.Scan Model.ScanTokens Model.ScanRel.
 Extraction "scanmodel.ml" run code lookup tok_string
   xgo_tokens tpl_tokens go_tokens
   xgo_Precedence xgo_IsOperator xgo_IsLiteral xgo_IsKeyword
   go_Precedence go_IsOperator go_IsLiteral go_IsKeyword tpl_Len
-  xgo_ops tpl_ops go_ops.
+  xgo_ops tpl_ops go_ops go_like shared.
